@@ -99,7 +99,64 @@ fn product2<const B: usize>() {
     assert!(by_ref.as_limbs()[0] == want, "Product<&Self>");
 }
 
+/// BOUNDED (limbs drawn from a finite set, everything concrete): overflowing / checked / saturating / wrapping mul on EVERY pair of
+/// L-limb operands whose limbs come from `set`, against a schoolbook oracle over 2L limbs. The set holds the values that steer
+/// addmul's trimming, truncated-row and carry paths: 0, 1, all ones, the top bit. No symbolic multiply is involved, so this is
+/// cheap where a symbolic product is out of reach; the all-widths statement is the Verus proof (units mul, addmul, addmul_n).
+fn mul_grid<const B: usize, const L: usize, const L2: usize>(set: &[u64]) {
+    let n = set.len();
+    let mut total = 1usize;
+    let mut k = 0;
+    while k < 2 * L { total *= n; k += 1; }
+    let mut idx = 0usize;
+    while idx < total {
+        // decode idx into 2L digits base n
+        let mut a = [0u64; L];
+        let mut b = [0u64; L];
+        let mut t = idx;
+        let mut j = 0;
+        while j < L { a[j] = set[t % n]; t /= n; j += 1; }
+        let mut j = 0;
+        while j < L { b[j] = set[t % n]; t /= n; j += 1; }
+        let m = o::mask_of(B);
+        if L > 0 { a[L - 1] &= m; b[L - 1] &= m; }
+        // schoolbook product over 2L limbs
+        let mut p = [0u64; L2];
+        let mut i = 0;
+        while i < L {
+            let mut carry: u128 = 0;
+            let mut j = 0;
+            while j < L {
+                let cur = p[i + j] as u128 + (a[i] as u128) * (b[j] as u128) + carry;
+                p[i + j] = cur as u64;
+                carry = cur >> 64;
+                j += 1;
+            }
+            p[i + L] = carry as u64;
+            i += 1;
+        }
+        let mut want = [0u64; L];
+        let mut j = 0;
+        while j < L { want[j] = p[j]; j += 1; }
+        let mut over = false;
+        let mut j = L;
+        while j < L2 { if p[j] != 0 { over = true; } j += 1; }
+        if L > 0 { if want[L - 1] > m { over = true; } want[L - 1] &= m; }
+        let (x, y) = (Uint::<B, L>::from_limbs(a), Uint::<B, L>::from_limbs(b));
+        let (r, f) = x.overflowing_mul(y);
+        assert!(o::same(r.as_limbs(), &want), "overflowing_mul value (limb grid)");
+        assert!(f == over, "overflowing_mul flag <=> a*b >= 2^BITS (limb grid)");
+        assert!(x.checked_mul(y).is_some() == !over, "checked_mul is None exactly on overflow (limb grid)");
+        let sat = x.saturating_mul(y);
+        assert!(if over { o::same(sat.as_limbs(), &o::max_of::<L>(B)) } else { o::same(sat.as_limbs(), &want) }, "saturating_mul (limb grid)");
+        idx += 1;
+    }
+}
+
 crate::harnesses! {
+    #[cfg_attr(kani, kani::unwind(630))] fn c02_mul_grid_w128() { mul_grid::<128, 2, 4>(&[0, 1, 2, u64::MAX, 1 << 63]) }
+    #[cfg_attr(kani, kani::unwind(630))] fn c02_mul_grid_w127() { mul_grid::<127, 2, 4>(&[0, 1, 2, u64::MAX, 1 << 62]) }
+    #[cfg_attr(kani, kani::unwind(735))] fn c02_mul_grid_w192() { mul_grid::<192, 3, 6>(&[0, 1, u64::MAX]) }
     // MEASURED: a constant 1, 8 or 2^64 operand still does not finish in 600 s; only the zero operand is cheap (11 s)
     #[cfg_attr(kani, kani::unwind(132))] fn c02_mulc_zero_w128() { mul_by_const::<128, 2>([0, 0], usize::MAX) }
     #[cfg_attr(kani, kani::unwind(132))] fn c02_mulc_zero_w65() { mul_by_const::<65, 2>([0, 0], usize::MAX) }
